@@ -1139,8 +1139,13 @@ func (s *IPSets) writeUpdates(setName string, w io.Writer, listener UpdateListen
 
 	if needCreate || needTempIPSet {
 		if needTempIPSet {
-			// After the swap, the temp IP set has the _old_ dataplane metadata.
-			s.setNameToProgrammedMetadata.Dataplane().Set(tempSet, dpMeta)
+			// After the swap, the temp IP set has the _old_ dataplane metadata.  The
+			// failure flags record our failed attempts on the main IP set's name; they
+			// must not stop us from deleting the temp IP set.
+			tempMeta := dpMeta
+			tempMeta.DeleteFailed = false
+			tempMeta.ListFailed = false
+			s.setNameToProgrammedMetadata.Dataplane().Set(tempSet, tempMeta)
 		}
 		// The main IP set now has the correct metadata.
 		s.setNameToProgrammedMetadata.Dataplane().Set(setName, desiredMeta)
